@@ -1,3 +1,4 @@
+//go:build verif
 // +build verif
 
 package raft
@@ -86,8 +87,8 @@ func errString(err error) string {
 
 func scenStress(dev int) *simScenario {
 	return &simScenario{
-		Name: "stress",
-		Opt:  worldOpt{Nodes: 4, Voters: []uint64{1, 2, 3}, EagerFSM: false, EagerLU: true, EagerConnect: true, Pad: 275, ShutOnRem: true},
+		Name:   "stress",
+		Opt:    worldOpt{Nodes: 4, Voters: []uint64{1, 2, 3}, EagerFSM: false, EagerLU: true, EagerConnect: true, Pad: 275, ShutOnRem: true},
 		Script: []string{"T:1", "run", "update:1", "run", "update:1", "run", "update:1", "run"},
 		Menu: simMenu{OrderCost: true, Timeouts: true, MaxTerm: 4, Drops: true, Crashes: true, Shutdowns: true, Snapshots: true, MaxSnaps: 2,
 			Clients: []string{"update", "read", "barrier", "dirty", "batch2"}, MaxUpdates: 2, MaxClient: 1,
